@@ -15,10 +15,10 @@ pub proof fn lemma_wait_fact_stable(id: PartId, r: crate::rpc::WaitRes, a: Node,
       node_wf(*old(n)) && payment_hash == old(n).hash
 //@ ensures#rely
       node_rely(*old(n), *final(n))
-//@ ensures#some_is_the_preimage_of_a_completed_part [C15,C01,C02,C16]
+//@ ensures#some_is_the_preimage_of_a_completed_part [C15,C01,C02,C16,C09]
       (r is Ok && r->Ok_0 is Some) ==>
           exists|id: PartId| final(n).completed.contains_key(id) && final(n).completed[id] == r->Ok_0->0@
-//@ ensures#none_only_if_nothing_pending_or_complete [C15,C02,C05,C08,C16,C03]
+//@ ensures#none_only_if_nothing_pending_or_complete [C15,C02,C05,C08,C16,C03,C09]
       (r is Ok && r->Ok_0 is None) ==> nothing_live(*final(n))
 //@ closure 0
 //@ cparams p: &ListsendpaysPayments
@@ -36,7 +36,7 @@ pub proof fn lemma_wait_fact_stable(id: PartId, r: crate::rpc::WaitRes, a: Node,
       && (forall|j: int| 0 <= j < $tasks.view().len() ==> (#[trigger] $tasks.view()[j]).0 == part_id(PL[j]) && crate::rpc::wait_fact($tasks.view()[j].0, $tasks.view()[j].1, *n))
 //@ invariant#every_pending_part_is_in_the_pending_listing [C15,C16,C02,C05,C08]
       forall|id: PartId| #![trigger n.pending.contains(id)] n.pending.contains(id) ==> listed(PL, id)
-//@ invariant#no_part_completed_unseen_between_the_two_listings [C15,C02,C05,C08,C16,C03]
+//@ invariant#no_part_completed_unseen_between_the_two_listings [C15,C02,C05,C08,C16,C03,C09]
 //    a completed part is either reported by the completed-listing (then we returned its preimage)
 //    or it was still pending when the pending-listing was taken
       forall|id: PartId| #![trigger n.completed.contains_key(id)] n.completed.contains_key(id) ==> listed(PL, id)
